@@ -986,10 +986,16 @@ def schedules_for(sc, na, nb, rng, per_i=4, max_i=None):
     """schedules with few pre-emptions: A runs i calls, B runs j calls, then both alternate"""
     out = []
     iset = list(range(0, na + 1))
-    if max_i is not None and len(iset) > max_i:
+    # one side has only a few visible calls (remove_hash, exists, a read by address ...): EVERY
+    # placement of those calls between the other side's calls is run, not a sample - a window of
+    # one call (between a failed no-replace rename and the stat that follows it, say) is hit for sure
+    every = min(na, nb) <= 3 and (na + 1) * (nb + 1) <= 120
+    if max_i is not None and len(iset) > max_i and not every:
         iset = sorted(set(rng.sample(iset, max_i)) | {0, na})
     for i in iset:
         js = {0, nb} | {rng.randrange(0, nb + 1) for _ in range(per_i)}
+        if every:
+            js = set(range(0, nb + 1))
         for j in sorted(js):
             out.append(with_plan(sc, {"kind": "schedule", "order": [0] * i + [1] * j}))
             if rng.random() < 0.3:
